@@ -10,7 +10,7 @@ ZERO_OK = [e for e in ENTRIES if e not in ("svp_prepare", "vmp_prepare_contiguou
 
 
 def _jobs(tier):
-    mult = 1 if tier == "quick" else 20
+    mult = 1 if tier == "quick" else 200
     jobs = []
     for fl in ("asan", "rel"):
         for k in range(1, 13):
